@@ -13,6 +13,7 @@ void __real_free(void *);
 volatile int shim_on;
 volatile int shim_always;
 int shim_fence;
+int shim_bypass;
 long shim_fail_at, shim_calls, shim_failed, shim_refused;
 size_t shim_max_req, shim_cap;
 
@@ -144,13 +145,13 @@ static void *shim_alloc(size_t n, int zero) {
 }
 
 void *__wrap_malloc(size_t n) {
-    if (!shim_on && !shim_always) {
+    if (shim_bypass || (!shim_on && !shim_always)) {
         return __real_malloc(n);
     }
     return shim_alloc(n, 0);
 }
 void *__wrap_calloc(size_t a, size_t b) {
-    if (!shim_on && !shim_always) {
+    if (shim_bypass || (!shim_on && !shim_always)) {
         return __real_calloc(a, b);
     }
     size_t n;
@@ -177,10 +178,10 @@ void __wrap_free(void *p) {
 }
 void *__wrap_realloc(void *p, size_t n) {
     blk *b = find(p);
-    if (!shim_on && !shim_always && !b) {
+    if ((shim_bypass || (!shim_on && !shim_always)) && !b) {
         return __real_realloc(p, n);
     }
-    if (!shim_on && !shim_always) { /* tracked block resized outside a library call */
+    if (shim_bypass || (!shim_on && !shim_always)) { /* tracked block resized outside a library call */
         if (b->map) {
             void *q = __real_malloc(n);
             if (q) {
